@@ -1,7 +1,7 @@
 (* Run/Dispatch.v — one entry point for the extracted runner: kind + arguments -> rendered result.
    All kind-specific glue is here so the OCaml driver stays generic.  The only effectful thing in
    the runner is [oracle], a question/answer call-back answered by the Go standard library. *)
-From FDO Require Export Run.Sexp.
+From FDO Require Export Run.Sexp Rv.RvImpl.
 Local Open Scope N_scope.
 
 Definition unhexnum (b : bytes) : option N :=
@@ -64,9 +64,51 @@ Section Dispatch.
       end
     else None.
 
+  (* ---- rendezvous instructions ---- *)
+  Definition O_ipstring (a : bytes) : bytes :=
+    match unhex (oracle (s "ipstring "%bs ++ hex a)) with Some x => x | None => [] end.
+
+  Definition render_opt {A} (f : A -> bytes) (o : option A) : bytes :=
+    match o with None => s "N"%bs | Some a => f a end.
+
+  Definition render_dir (d : rvdir) : bytes :=
+    s "(dir (urls"%bs ++ flat_map (fun u => s " (u b:"%bs ++ hex (fst u) ++ s " b:"%bs ++ hex (snd u) ++ s ")"%bs) (d_urls d) ++ s ")"%bs
+    ++ s " bypass "%bs ++ (if d_bypass d then s "T"%bs else s "F"%bs)
+    ++ s " eth "%bs ++ render_opt (fun n => s "n:"%bs ++ hexnum n) (d_eth d)
+    ++ s " wlan "%bs ++ render_opt (fun n => s "n:"%bs ++ hexnum n) (d_wlan d)
+    ++ s " ssid b:"%bs ++ hex (d_ssid d) ++ s " pass b:"%bs ++ hex (d_pass d)
+    ++ s " mech b:"%bs ++ hex (d_extmech d) ++ s " args b:"%bs ++ hex (d_extargs d)
+    ++ s " delay z:"%bs ++ hexnumZ (d_delay d)
+    ++ s " svcert "%bs ++ render_opt (fun h => s "(z:"%bs ++ hexnumZ (fst h) ++ s " b:"%bs ++ hex (snd h) ++ s ")"%bs) (d_svcert d)
+    ++ s " clcert "%bs ++ render_opt (fun h => s "(z:"%bs ++ hexnumZ (fst h) ++ s " b:"%bs ++ hex (snd h) ++ s ")"%bs) (d_clcert d)
+    ++ s ")"%bs.
+
+  Fixpoint parse_rvis (l : list arg) : option (list rvi) :=
+    match l with
+    | [] => Some []
+    | AL [AN v; AB b] :: r => option_map (cons (mkrvi v b)) (parse_rvis r)
+    | _ => None
+    end.
+
+  Definition run_rv (kind : bytes) (args : list arg) : option bytes :=
+    if bytes_eqb kind (s "rv.parse"%bs) then
+      match args with
+      | [role; AL l] =>
+        match parse_rvis l with
+        | Some vars => Some (render_outcome render_dir (interp O_ipstring vars (sym_is role "dev"%bs)))
+        | None => Some bad_args
+        end
+      | _ => Some bad_args
+      end
+    else None.
+
   Definition dispatch (kind : bytes) (args : list arg) : bytes :=
     match run_cbor kind args with
     | Some r => r
-    | None => s "unknown-kind"%bs
+    | None =>
+      match run_rv kind args with
+      | Some r => r
+      | None => s "unknown-kind"%bs
+      end
     end.
 End Dispatch.
